@@ -60,7 +60,10 @@ Inductive op :=
 | OStop (h : nat)                        (* uv_signal_stop *)
 | OClose (h : nat)                       (* uv_close *)
 | ORaise (sig : nat)                     (* the kernel delivers sig to the process *)
-| ORun (l : nat).                        (* uv_run(loop l, UV_RUN_NOWAIT); top level only *)
+| ORun (l : nat)                         (* uv_run(loop l, UV_RUN_NOWAIT); top level only *)
+| OFork (l : nat)                        (* the process is the child of a fork(): uv_loop_fork(loop l); top level only *)
+| OUvStop (l : nat)                      (* uv_stop(loop l) *)
+| OReinit (h : nat).                     (* uv_signal_init again on the memory of a handle whose close_cb has run *)
 
 Inductive event :=
 | EOp (o : op) (ret : Z)                 (* the call returned ret (ORaise: 0 handled, 1 default action) *)
@@ -71,7 +74,8 @@ Inductive event :=
 | ERunBegin (l : nat)
 | ERunEnd (l : nat)
 | ESnap (d : list disp) (a : list bool)  (* sigaction() of the watched signals, uv_is_active of every handle *)
-| EDrop (h sig : nat).                   (* ghost: a message (h, sig) was consumed without a callback *)
+| EDrop (h sig : nat)                    (* ghost: a message (h, sig) was consumed without a callback *)
+| EFork (l : nat) (ids : list nat).      (* uv_loop_fork(loop l) returned; ids (ghost) = the handles of that loop *)
 
 Record state := mkS {
   hs : list handle;
@@ -84,25 +88,27 @@ Record state := mkS {
   cbcount : nat;
   race : bool;
   lost : nat;                (* ghost: writes that found the pipe full (EAGAIN) *)
+  stopf : nat -> bool;       (* loop->stop_flag *)
   tr : list event
 }.
 
 Definition init (c : nat) : state :=
-  mkS [] [] (fun _ => Default) (fun _ => []) [] (fun _ => []) c 0 false 0 [].
+  mkS [] [] (fun _ => Default) (fun _ => []) [] (fun _ => []) c 0 false 0 (fun _ => false) [].
 
 Definition dflt_h : handle := mkH 0 0 false 0 0 false false false false.
 Definition get (s : state) (h : nat) : handle := nth h (hs s) dflt_h.
 
-Definition with_hs (s : state) v := mkS v (tree s) (disp_of s) (pipe_of s) (batch s) (clq_of s) (cap s) (cbcount s) (race s) (lost s) (tr s).
-Definition with_tree (s : state) v := mkS (hs s) v (disp_of s) (pipe_of s) (batch s) (clq_of s) (cap s) (cbcount s) (race s) (lost s) (tr s).
-Definition with_disp (s : state) v := mkS (hs s) (tree s) v (pipe_of s) (batch s) (clq_of s) (cap s) (cbcount s) (race s) (lost s) (tr s).
-Definition with_pipes (s : state) v := mkS (hs s) (tree s) (disp_of s) v (batch s) (clq_of s) (cap s) (cbcount s) (race s) (lost s) (tr s).
-Definition with_batch (s : state) v := mkS (hs s) (tree s) (disp_of s) (pipe_of s) v (clq_of s) (cap s) (cbcount s) (race s) (lost s) (tr s).
-Definition with_clqs (s : state) v := mkS (hs s) (tree s) (disp_of s) (pipe_of s) (batch s) v (cap s) (cbcount s) (race s) (lost s) (tr s).
-Definition with_cbcount (s : state) v := mkS (hs s) (tree s) (disp_of s) (pipe_of s) (batch s) (clq_of s) (cap s) v (race s) (lost s) (tr s).
-Definition with_race (s : state) v := mkS (hs s) (tree s) (disp_of s) (pipe_of s) (batch s) (clq_of s) (cap s) (cbcount s) v (lost s) (tr s).
-Definition with_tr (s : state) v := mkS (hs s) (tree s) (disp_of s) (pipe_of s) (batch s) (clq_of s) (cap s) (cbcount s) (race s) (lost s) v.
-Definition with_lost (s : state) v := mkS (hs s) (tree s) (disp_of s) (pipe_of s) (batch s) (clq_of s) (cap s) (cbcount s) (race s) v (tr s).
+Definition with_hs (s : state) v := mkS v (tree s) (disp_of s) (pipe_of s) (batch s) (clq_of s) (cap s) (cbcount s) (race s) (lost s) (stopf s) (tr s).
+Definition with_tree (s : state) v := mkS (hs s) v (disp_of s) (pipe_of s) (batch s) (clq_of s) (cap s) (cbcount s) (race s) (lost s) (stopf s) (tr s).
+Definition with_disp (s : state) v := mkS (hs s) (tree s) v (pipe_of s) (batch s) (clq_of s) (cap s) (cbcount s) (race s) (lost s) (stopf s) (tr s).
+Definition with_pipes (s : state) v := mkS (hs s) (tree s) (disp_of s) v (batch s) (clq_of s) (cap s) (cbcount s) (race s) (lost s) (stopf s) (tr s).
+Definition with_batch (s : state) v := mkS (hs s) (tree s) (disp_of s) (pipe_of s) v (clq_of s) (cap s) (cbcount s) (race s) (lost s) (stopf s) (tr s).
+Definition with_clqs (s : state) v := mkS (hs s) (tree s) (disp_of s) (pipe_of s) (batch s) v (cap s) (cbcount s) (race s) (lost s) (stopf s) (tr s).
+Definition with_cbcount (s : state) v := mkS (hs s) (tree s) (disp_of s) (pipe_of s) (batch s) (clq_of s) (cap s) v (race s) (lost s) (stopf s) (tr s).
+Definition with_race (s : state) v := mkS (hs s) (tree s) (disp_of s) (pipe_of s) (batch s) (clq_of s) (cap s) (cbcount s) v (lost s) (stopf s) (tr s).
+Definition with_tr (s : state) v := mkS (hs s) (tree s) (disp_of s) (pipe_of s) (batch s) (clq_of s) (cap s) (cbcount s) (race s) (lost s) (stopf s) v.
+Definition with_lost (s : state) v := mkS (hs s) (tree s) (disp_of s) (pipe_of s) (batch s) (clq_of s) (cap s) (cbcount s) (race s) v (stopf s) (tr s).
+Definition with_stopf (s : state) v := mkS (hs s) (tree s) (disp_of s) (pipe_of s) (batch s) (clq_of s) (cap s) (cbcount s) (race s) (lost s) v (tr s).
 
 Definition fupd {A} (f : nat -> A) (k : nat) (v : A) : nat -> A :=
   fun x => if x =? k then v else f x.
@@ -111,6 +117,7 @@ Definition upd_h (s : state) (h : nat) (f : handle -> handle) : state := with_hs
 Definition set_disp (s : state) (sig : nat) (d : disp) : state := with_disp s (fupd (disp_of s) sig d).
 Definition set_pipe (s : state) (l : nat) (p : list msg) : state := with_pipes s (fupd (pipe_of s) l p).
 Definition set_clq (s : state) (l : nat) (q : list nat) : state := with_clqs s (fupd (clq_of s) l q).
+Definition set_stopf (s : state) (l : nat) (b : bool) : state := with_stopf s (fupd (stopf s) l b).
 Definition log (s : state) (e : event) : state := with_tr s (e :: tr s).
 
 (* field setters of a handle *)
@@ -271,6 +278,16 @@ Definition api (fx : bool) (s : state) (o : op) : state :=
       if sig =? 0 then log s (ESkip o)
       else let '(s1, r) := deliver s sig in log s1 (EOp o r)
   | ORun _ => log s (ESkip o)
+  | OFork _ => log s (ESkip o)                                   (* not from inside a callback *)
+  | OUvStop l => log (set_stopf s l true) (EOp o 0%Z)
+  | OReinit h =>
+      (* the storage of a closed handle is used again.  A closed handle is stopped and in no
+         closing queue (invariants): the first two steps change nothing in a reachable state *)
+      if (h <? length (hs s)) && h_closed (get s h) then
+        let s1 := sig_stop s h in
+        let s2 := with_clqs s1 (fun l => filter (fun x => negb (x =? h)) (clq_of s1 l)) in
+        log (upd_h s2 h (fun x => new_handle (h_loop x))) (EOp o 0%Z)
+      else log s (ESkip o)
   end.
 
 Definition watch_sigs : list nat := [1; 10; 12; 28].   (* SIGHUP SIGUSR1 SIGUSR2 SIGWINCH *)
@@ -366,13 +383,27 @@ Definition run_closing (s : state) (l : nat) : state :=
    pipe), then closing handles *)
 Definition dispatch (fx fs fr : bool) (beh : nat -> list op) (fuel : nat) (s : state) (l : nat) : state :=
   let s0 := log s (ERunBegin l) in
-  let s1 := signal_event fx fs fr beh fuel s0 l in
-  let s2 := run_closing s1 l in
-  snap (log s2 (ERunEnd l)).
+  let s2 :=
+    if stopf s0 l then s0                                        (* uv_stop() before the run: no iteration *)
+    else run_closing (signal_event fx fs fr beh fuel s0 l) l in
+  snap (log (set_stopf s2 l false) (ERunEnd l)).               (* stop_flag is cleared on the way out *)
+
+(* uv_loop_fork(loop l) in the child of a fork(): uv__signal_loop_fork closes the inherited
+   signal pipe, makes a new one and zeroes caught_signals / dispatched_signals of every signal
+   handle of the loop.  The tree, the dispositions and the handles' watches are inherited. *)
+Definition h_reset_counters (x : handle) : handle :=
+  mkH (h_loop x) (h_signum x) (h_oneshot x) 0 0 (h_active x) (h_closing x) (h_closed x) (g_fired x).
+
+Definition loop_fork (s : state) (l : nat) : state :=
+  let ids := filter (fun h => h_loop (get s h) =? l) (seq 0 (length (hs s))) in
+  let s1 := set_pipe s l [] in
+  let s2 := with_hs s1 (map (fun x => if h_loop x =? l then h_reset_counters x else x) (hs s1)) in
+  log s2 (EFork l ids).
 
 Definition top (fx fs fr : bool) (beh : nat -> list op) (fuel : nat) (s : state) (o : op) : state :=
   match o with
   | ORun l => dispatch fx fs fr beh fuel s l
+  | OFork l => snap (loop_fork s l)
   | _ => api_snap fx s o
   end.
 
